@@ -422,10 +422,10 @@ def cli(argv=None, mode='output'):
             parser.error(
                 "You did not tell which formula you wanted to generate.\n")
 
-        # Generate the formula and apply transformations
-        if hasattr(args, 'seed') and args.seed is not None:
-            random.seed(args.seed)
-
+        # Generate the formula and apply transformations (the random
+        # generator has been seeded when the option `--seed` was parsed:
+        # seeding it again would give the formula the very numbers its
+        # random graph arguments have been built with)
         try:
             opb = args.generator.build_formula(args, formula_class=OPB)
         except (CLIError, ValueError) as e:
